@@ -125,7 +125,10 @@ func NewConnWithOpts(connection *coapNet.Conn, cfg *Config, opts ...Option) *Con
 		blockwiseSZX:                    cfg.BlockwiseSZX,
 		disablePeerTCPSignalMessageCSMs: cfg.DisablePeerTCPSignalMessageCSMs,
 	}
-	limitParallelRequests := limitparallelrequests.New(cfg.LimitClientParallelRequests, cfg.LimitClientEndpointParallelRequests, cc.do, cc.doObserve)
+	// A request issued from a handler may have to wait for a free slot: the reader loop is busy with that handler,
+	// so let another loop process incoming messages (e.g. the responses that free the slots) meanwhile.
+	limitParallelRequests := limitparallelrequests.New(cfg.LimitClientParallelRequests, cfg.LimitClientEndpointParallelRequests, cc.do, cc.doObserve,
+		limitparallelrequests.WithBeforeWait(func() { cc.receivedMessageReader.TryToReplaceLoop() }))
 	cc.observationHandler = observation.NewHandler(&cc, cfg.Handler, limitParallelRequests.Do)
 	cc.Client = client.New(&cc, cc.observationHandler, cfg.GetToken, limitParallelRequests)
 	cc.blockWise = cfgOpts.CreateBlockWise(&cc)
